@@ -248,7 +248,12 @@ class Parser:
 _cache = {}
 
 
+PREPROCESS = None   # set by the lowering: rewrites constant expressions inside type strings (e.g. PeerId{}.size())
+
+
 def parse_type(s):
+    if PREPROCESS is not None and '{}' in s:
+        s = PREPROCESS(s)
     if s not in _cache:
         _cache[s] = Parser(s).parse()
     return _cache[s]
